@@ -131,7 +131,18 @@ def oracle(case, obs):
     return None
 
 
+def has_body_collision(rec):
+    res = gen.reserved_names(rec) if rec["cls"] != "Root" else {"metadatabundle"}
+    for k in rec.get("kids", []):
+        if k["name"] in res or has_body_collision(k):
+            return True
+    return False
+
+
 def known_match(case, fail, finding):
+    if finding["id"] == "C01-K1":
+        # save raises because a child is named like a dataset its parent's class writes into its own group
+        return "save_failed" in fail and fail["save_failed"].get("err") == "error" and has_body_collision(case["trees"]["T"])
     return False
 
 
